@@ -137,9 +137,9 @@ def means(eng):
     return obs
 
 
-def index_sets(eng, alpha=None, only_larger=True, order=None, hide=(), nr=1):
+def index_sets(eng, alpha=None, only_larger=True, order=None, hide=(), nr=1, subtotal=True):
     rows = ("cat", "a", nr, {"missing_at": (1,)})
-    cols = ("cat", "b", 2, {"missing_at": (0,), "insertions": [S("c12", [1, 2])]})
+    cols = ("cat", "b", 2, {"missing_at": (0,), "insertions": [S("c12", [1, 2])] if subtotal else []})
     w = CellWorld(eng, [rows, cols], u_concrete=5, w_strict=True)
     tr = {"pairwise_indices": {"only_larger": only_larger}}
     if alpha is not None:
@@ -168,6 +168,8 @@ def index_sets(eng, alpha=None, only_larger=True, order=None, hide=(), nr=1):
             for a in range(nc):
                 cell = []
                 for b in range(nc):
+                    if b == a:
+                        continue            # a column is never tested against itself
                     sig = bool(PV[a][i, b] < al)
                     if sig and only_larger:
                         sig = bool(TS[a][i, b] < 0)
@@ -294,5 +296,6 @@ def specs(tier):
         add("overlap-corrected t/p diagonal and p-from-t (cat x mr)", "overlaps", dict())
         add("overlap index sets, only larger", "overlaps", dict(index_sets=True, only_larger=True))
         add("t/p 3x4", "tp", dict(nr=3, ncols=4))
-        add("index sets 2 rows", "index_sets", dict(nr=2, only_larger=False), max_paths=20000)
+        # two rows x three columns (six independent p < alpha forks over uninterpreted cdf values) ran 40 min: two columns instead
+        add("index sets 2 rows, 2 columns", "index_sets", dict(nr=2, only_larger=False, subtotal=False), max_paths=2000)
     return out
